@@ -9,8 +9,9 @@ from audiolazy import Poly, x, lagrange
 ID = "C07"
 RULE = ("cases = Laurent polynomials given as (power, coefficient) lists with exact rational "
         "coefficients (powers -4..6, cancelling values included), a construction route "
-        "(dict / list / x-expression), evaluation points, exponents 0..5 and interpolation "
-        "point sets with distinct abscissae; oracle = an independent dict-of-Fractions "
+        "(dict / list / x-expression), evaluation points, exponents 0..5, a plain number as left "
+        "operand of + - * (spelled int / float / -0. / bool / Fraction / Q, zero and one weighted) and "
+        "interpolation point sets with distinct abscissae; oracle = an independent dict-of-Fractions "
         "polynomial arithmetic (sum, product, power, derivative, integral, composition, "
         "evaluation) compared exactly, plus the ring laws themselves; non-trivial = both "
         "operands have at least 2 terms (at least 2 points for interpolation); distinct = "
@@ -133,10 +134,71 @@ def eq(a, b, what):
 
 
 # ------------------------------------------------------------------ ring laws
+# A plain number as the LEFT operand of + - * goes through the reflected dunders (__radd__, __rsub__,
+# __rmul__).  The number is drawn as (spelling, exact value): every spelling of zero (0, 0., -0., False,
+# Fraction(0), Q(0)) and of one (1, 1., True, Fraction(1), Q(1)) has its own weight next to ordinary values.
+_Z1 = [Q(0), Q(1)]
+LEFT_SPELLINGS = {
+  "int": st.one_of(st.sampled_from(_Z1 + [Q(-1)]), st.integers(-4, 4).map(Q)),
+  "float": st.one_of(st.sampled_from(_Z1 + [Q(-1)]), st.integers(-32, 32).map(lambda n: Q(n, 8))),
+  "negzero": st.just(Q(0)),
+  "bool": st.sampled_from([Q(0), Q(1)]),
+  "fraction": st.one_of(st.sampled_from(_Z1), fr),
+  "q": st.one_of(st.sampled_from(_Z1), fr),
+}
+left_scalar = st.sampled_from(["int", "int", "float", "float", "negzero", "bool", "fraction", "fraction", "q"]) \
+                .flatmap(lambda s: st.tuples(st.just(s), LEFT_SPELLINGS[s]))
+
+
+def spell_left(how, c):
+  """The plain Python number handed to the operator (exact: floats are eighths only)."""
+  fc = F(c)
+  if how == "int":
+    return int(fc)
+  if how == "float":
+    return float(fc)
+  if how == "negzero":
+    return -0.0
+  if how == "bool":
+    return bool(fc)
+  if how == "fraction":
+    return fc
+  return c
+
+
 def strat_ring(tier):
   return st.fixed_dictionaries(dict(
     p=terms(), q=terms(), r=terms(maxn=4), n=st.integers(0, 5),
-    routes=st.tuples(*[st.sampled_from(ROUTES)] * 3)))
+    routes=st.tuples(*[st.sampled_from(ROUTES)] * 3), left=left_scalar))
+
+
+def left_scalar_laws(p, P, how, c):
+  """c + p, c - p, c * p with the plain number c on the left, against the reference arithmetic and the
+  ring laws that tie them to the forward operators."""
+  cc = spell_left(how, c)
+  C = {0: F(c)} if c != 0 else {}
+  tag = "%r (%s)" % (cc, type(cc).__name__)
+  check(cc + p, m_add(C, P), "c+p with c = " + tag)
+  check(p + cc, m_add(C, P), "p+c with c = " + tag)
+  check(cc - p, m_add(C, m_neg(P)), "c-p with c = " + tag)
+  check(p - cc, m_add(P, m_neg(C)), "p-c with c = " + tag)
+  check(cc * p, m_mul(C, P), "c*p with c = " + tag)
+  check(p * cc, m_mul(C, P), "p*c with c = " + tag)
+  eq(cc + p, p + cc, "c+p vs p+c, c = " + tag)
+  eq(cc * p, p * cc, "c*p vs p*c, c = " + tag)
+  eq(cc - p, -(p - cc), "c-p vs -(p-c), c = " + tag)
+  eq(cc - p, (-p) + cc, "c-p vs (-p)+c, c = " + tag)
+  check((cc - p) + p, C, "(c-p)+p with c = " + tag)
+  eq((cc - p) + p, Poly(cc), "(c-p)+p vs Poly(c), c = " + tag)
+  check((cc + p) - p, C, "(c+p)-p with c = " + tag)
+  check(cc - (cc - p), P, "c-(c-p) with c = " + tag)
+  check(cc * (cc + p), m_mul(C, m_add(C, P)), "c*(c+p) with c = " + tag)
+  eq(cc * (cc + p), cc * cc + cc * p, "c*(c+p) vs c*c+c*p, c = " + tag)
+  labels = ["left scalar " + ("zero" if c == 0 else "one" if c == 1 else "other"),
+            "left scalar spelled " + how]
+  if c == 0 and len(P) >= 1:
+    labels.append("zero on the left of a non-empty polynomial")
+  return labels
 
 
 def run_ring(c):
@@ -172,7 +234,9 @@ def run_ring(c):
   check(p + k, m_add(P, {0: F(k)}), "p+k")
   check(k - p, m_add({0: F(k)}, m_neg(P)), "k-p")
   check(p / k, {kk: cc / F(k) for kk, cc in P.items()}, "p/k")
-  labels = []
+  # the builtin sum starts with 0 + first
+  check(sum([p, q, r]), m_add(m_add(P, Qm), R), "sum([p, q, r])")
+  labels = left_scalar_laws(p, P, *c["left"]) if "left" in c else []
   if any(kk < 0 for kk in list(P) + list(Qm)):
     labels.append("negative powers")
   if len(m_add(P, Qm)) < len(set(P) | set(Qm)) or len(m_mul(P, Qm)) < len({a + b for a in P for b in Qm}):
@@ -554,8 +618,13 @@ CLAUSES = [
              "the same long polynomial reached in different term-creation orders is ==, not !=, hash-equal "
              "and one dict key"),
   Clause("ring", strat_ring, run_ring, quick=1800, thorough=40000,
-         floors={"negative powers": .2, "cancellation": .02},
-         doc="+ - * ** vs independent arithmetic; commutative/associative/distributive; no stored zero"),
+         floors={"negative powers": .2, "cancellation": .02, "left scalar zero": .1, "left scalar one": .05,
+                 "left scalar other": .08, "zero on the left of a non-empty polynomial": .08,
+                 "left scalar spelled int": .06, "left scalar spelled float": .06, "left scalar spelled negzero": .03,
+                 "left scalar spelled bool": .03, "left scalar spelled fraction": .03, "left scalar spelled q": .02},
+         doc="+ - * ** vs independent arithmetic; commutative/associative/distributive; no stored zero; "
+             "plain numbers (every spelling of zero and one included) as LEFT operands of + - * obey "
+             "c-p == -(p-c), (c-p)+p == c, c+p == p+c, c*p == p*c"),
   Clause("evaluation", strat_eval, run_eval, quick=1500, thorough=40000,
          floors={"negative powers": .2, "sparse Horner merge step": .1},
          doc="homomorphism; Horner == direct == independent sum"),
